@@ -93,6 +93,7 @@ package influxql
 //@   safety C08
 //@   tracks ovf
 //@   ensures result1 == nil ==> !ovf()
+//@   ensures [C08] @decimal callarg("strconv.ParseInt", 1) == 10 && callarg("strconv.ParseInt", 2) == 64
 //@   loop 1 invariant 0 <= i && i <= len(a) && d >= 0 && (!overflow ==> !ovf())
 //@   loop 1 step !overflow ==> ((spec_unitAt(a, old(i), i, i-1) && d - old(d) == n * spec_unitVal(a, i-1)) || (spec_unitAt(a, old(i), i, i-2) && d - old(d) == n * spec_unitVal(a, i-2)))
 //@   loop 1 decreases len(a) - i
